@@ -241,7 +241,7 @@ def rule_effect(facts, cg):
 def run(ctx):
     facts = ctx["facts"]
     cg = CallGraph(facts)
-    return [rule_ro(facts, cg), rule_wmc(facts, cg), rule_effect(facts, cg), rule_iso(facts), rule_seg(facts), rule_cursor(facts, "C14-CURSOR", ["glaredb_core"], 1)]
+    return [rule_ro(facts, cg), rule_wmc(facts, cg), rule_effect(facts, cg), rule_iso(facts), rule_seg(facts), rule_cursor(facts, "C14-CURSOR", ["glaredb_core"], 1), rule_rowcount(facts)]
 
 
 
@@ -260,6 +260,87 @@ def rule_cursor(facts, rule, crates, floor):
                       f"argument of that call is never advanced by `{s_['amount']}` inside the loop: every further iteration handles the same slice again "
                       "(rows duplicated, the tail lost, counts unchanged)", s_["file"], s_["line"])
     return r
+
+def rule_rowcount(facts):
+    """INSERT / CREATE TABLE AS report a row count. It is the number of rows handed to the table: every append of a batch is paired, on
+    every successful path, with adding that same batch's num_rows() to the partition's counter, and the value written to the result
+    is that counter."""
+    from .c10carry import _self_field
+    r = RuleResult("C14-ROWCOUNT", "every DataTable::append_batch in the catalog operators is paired with `count += <same batch>.num_rows()`, and the reported "
+                   "value is that counter", floor=2)
+    CAT = "glaredb_core::execution::operators::catalog::"
+    for rec in facts.fns_matching(lambda i: CAT in i and "::tests::" not in i):
+        if "append_batch" not in str(rec["bbs"]):
+            continue
+        fn = Fn(rec)
+        appends = [c for c in fn.calls() if c.name.endswith("::append_batch") and "storage::datatable" in c.name]
+        if not appends:
+            continue
+        r.functions.add(fn.id)
+        errs = [c.bb for c in fn.calls() if c.name.endswith("from_residual")]
+        for c in appends:
+            r.call_sites += 1
+            batch = None
+            for a in c.args:
+                if a[0] in ("c", "m"):
+                    o = fn.origin(a, at=c.bb)
+                    if o[0] == "arg" and "arrays::batch::Batch" in fn.locals[o[1]]:
+                        batch = o[1]
+            # counter updates: assignment to a field of a state parameter whose value derives from num_rows(batch) and from the field itself
+            updates = []
+            for b, i, pl, rv, ln in fn.assigns():
+                flds = [p[1] for p in pl[1] if isinstance(p, list) and p[0] == "f"]
+                if not flds or "count" not in flds[-1]:
+                    continue
+                seen, st, from_rows = set(), [rv], False
+                while st:
+                    x = st.pop()
+                    for l in __import__("rules.mir", fromlist=["operand_locals"]).operand_locals(x, set()):
+                        if l in seen:
+                            continue
+                        seen.add(l)
+                        for d in fn.defs.get(l, []):
+                            if d[0] in ("a", "pa"):
+                                st.append(d[3])
+                            else:
+                                cc = d[2]
+                                if cc.name.endswith("Batch::num_rows") and cc.args and fn.origin(cc.args[0], at=cc.bb)[0:2] == ("arg", batch):
+                                    from_rows = True
+                                st.append(cc.args)
+                if from_rows:
+                    updates.append(b)
+            ok = False
+            for ub in updates:
+                if fn.dominates(ub, c.bb):
+                    ok = True
+                elif fn.dominates(c.bb, ub):
+                    after = fn.reachable_from(c.target, avoid=[ub] + errs) if c.target is not None else set()
+                    ok = ok or not any(e in after for e in fn.exits)
+            # reported value
+            reported = False
+            root_rec = rec
+            for x in fn.calls():
+                if x.name.endswith("Array::set_value") and len(x.args) >= 3:
+                    seen, st = set(), [x.args[2]]
+                    while st:
+                        y = st.pop()
+                        if "count" in str(y):
+                            reported = True
+                        for l in __import__("rules.mir", fromlist=["operand_locals"]).operand_locals(y, set()):
+                            if l in seen:
+                                continue
+                            seen.add(l)
+                            for d in fn.defs.get(l, []):
+                                st.append(d[3] if d[0] in ("a", "pa") else d[2].args)
+            r.inst({"fn": fn.id, "append_line": c.line, "batch_param": fn.local_name(batch) if batch else None, "counter_updates": len(updates),
+                    "paired": ok, "reports_counter": reported}, ok and reported)
+            if not ok:
+                r.violate(fn.id, "append-without-count", f"the batch appended at line {c.line} is not paired on every successful path with `count += batch.num_rows()`: "
+                          "the row count reported by INSERT / CREATE TABLE AS differs from the rows stored", rec["file"], c.line)
+            elif not reported:
+                r.violate(fn.id, "count-not-reported", "the value written to the result batch does not derive from the partition's row counter", rec["file"], c.line)
+    return r
+
 
 CLAIM = {
     "text": "Call-graph who-may-call rules plus MIR must-pass-through/provenance rules decide, for every code path, that write access is gated "
